@@ -59,6 +59,7 @@ def universe(name):
     if name not in _uni:
         n, k, r = {"S133": (1, 3, 3), "P233": (2, 3, 3), "T332": (3, 3, 2),
                    "S122": (1, 2, 2), "P222": (2, 2, 2), "T321": (3, 2, 1),
+                   "P243": (2, 4, 3),
                    "Q421": (4, 2, 1)}[name]
         out = []
         for inp in U.micro_inputs(n, k, r):
@@ -89,6 +90,11 @@ def units(tier, seed):
         m = len(universe(name))
         for a in range(0, m, cs):
             us.append(("stretch", name, a, min(a + cs, m), tier, seed))
+    # dimensions of size 1 (each index in turn), 4-symbol pairs of rank <= 3
+    for name, cs in (("P243", 2500), ("T332", 800)):
+        m = len(universe(name))
+        for a in range(0, m, cs):
+            us.append(("size1", name, a, min(a + cs, m), tier, seed))
     return us
 
 
@@ -177,6 +183,24 @@ def work_plain(cases, seed, res):
             compare(res, "einsum_tree", {"call": eq, "shapes": shapes},
                     via_tree, lambda: np.einsum(eq, *arrays))
     res.sample({"form": "plain", "eq": eq}, cap=1)
+
+
+def work_size1(cases, seed, res):
+    import cotengra as ctg
+
+    for inputs, output in cases:
+        inds = U.used_inds(inputs)
+        base = sizes_for(inds, seed)
+        eq = ",".join("".join(t) for t in inputs) + "->" + "".join(output)
+        for one in inds:
+            sd = dict(base)
+            sd[one] = 1
+            arrays = ref.make_arrays(inputs, sd, seed)
+            shapes = [a.shape for a in arrays]
+            compare(res, "size1", {"call": eq, "shapes": shapes},
+                    lambda: ctg.einsum(eq, *arrays, cache_expression=False),
+                    lambda: np.einsum(eq, *arrays))
+    res.sample({"form": "size1", "eq": eq}, cap=1)
 
 
 def place(term, pos, n):
@@ -380,6 +404,8 @@ def work(unit):
         work_ellipsis(cases, seed, res, tier)
     elif kind == "stretch":
         work_stretch(cases, seed, res)
+    elif kind == "size1":
+        work_size1(cases, seed, res)
     else:
         work_labels(cases, seed, res)
     return res
